@@ -8,6 +8,7 @@ import (
 	"fmt"
 	"math/rand/v2"
 	"os"
+	"regexp"
 	"sync"
 	"testing"
 	"testing/synctest"
@@ -33,16 +34,17 @@ func TestMain(m *testing.M) {
 }
 
 type plan struct {
-	Kind       string // single | kind | agg
-	Boot       bool
-	BootBM     bool
-	NoRetry    bool
-	K          []int // Recv index failing on stream 0, 1, 2 (0 = none)
-	E          int   // failed re-establishments after the first failure (-1 = forever)
-	W          int   // writes during the first outage
-	Pre        int
-	Cfg        wl.Cfg
-	Code       codes.Code
+	Kind    string // single | kind | agg
+	Boot    bool
+	BootBM  bool
+	NoRetry bool
+	K       []int // Recv index failing on stream 0, 1, 2 (0 = none)
+	E       int   // failed re-establishments after the first failure (-1 = forever)
+	W       int   // writes during the first outage
+	Pre     int
+	Cfg     wl.Cfg
+	Code    codes.Code
+	IDQ     bool // kind / aggregated watch restricted by an ID query (no bootstrap contents)
 }
 
 func TestC13(t *testing.T) {
@@ -97,6 +99,10 @@ func TestC13(t *testing.T) {
 			if kind != "single" {
 				p.Boot = rng.IntN(2) == 0
 				p.BootBM = rng.IntN(3) == 0
+			}
+
+			if kind != "single" && !p.Boot && i%3 == 0 {
+				p.IDQ = true
 			}
 
 			for rng.IntN(3) == 0 && len(p.K) < 3 {
@@ -201,10 +207,21 @@ func run(c *vk.C, rng *rand.Rand, p plan, idx int) {
 	case "single":
 		rec.ID = "x"
 		err = remote.Watch(ctx, resource.NewMetadata("ns", res.TypeA, "x", resource.VersionUndefined), ch)
-	case "kind":
-		err = remote.WatchKind(ctx, kindMd, ch, state.WithBootstrapContents(p.Boot), state.WithBootstrapBookmark(p.BootBM))
-	case "agg":
-		err = remote.WatchKindAggregated(ctx, kindMd, agg, state.WithBootstrapContents(p.Boot), state.WithBootstrapBookmark(p.BootBM))
+	case "kind", "agg":
+		kopts := []state.WatchKindOption{state.WithBootstrapContents(p.Boot), state.WithBootstrapBookmark(p.BootBM)}
+
+		if p.IDQ {
+			rec.OnlyID = "x"
+			kopts = append(kopts, state.WatchWithIDQuery(resource.IDRegexpMatch(regexp.MustCompile("^x$"))))
+
+			c.Count("id_filtered_watches", 1)
+		}
+
+		if p.Kind == "kind" {
+			err = remote.WatchKind(ctx, kindMd, ch, kopts...)
+		} else {
+			err = remote.WatchKindAggregated(ctx, kindMd, agg, kopts...)
+		}
 	}
 
 	rec.Hi = w.Len()
